@@ -178,6 +178,94 @@ theorem readyOrdered_local_first (eps : List Ep) (i : Nat) (hi : i < (readyOrder
       (n := i - (eps.filter (fun e => e.isLocal && e.ready)).length) (by simp at hi; omega)
     simp only [List.mem_filter, Bool.and_eq_true, Bool.not_eq_true'] at hm
     simp [h, hm.2.1]
+/-! ### What the cluster-IP frontend lists after a sync (full, under the code's own no-duplicates assumption)
+
+`calls` / `fwrites` are ghost traces of the builder: every `updateService(skey, id, eps)` call and every
+`bpfSvcs.Desired().Set(key, val)`.  Hypotheses: no NAT service ID is used by two `updateService` calls of
+the sync (monitored on the real code by the harness oracle `id-shared`) and no frontend key is `Set`
+twice ("we assume that k8s provide us with no duplicities", syncer.go). -/
+
+theorem buildDesired_pres {P : Bld → Prop} (hp : Pres P) (s : Syncer) (st : KState) (hint : AMap SvcKey Nat)
+    (h0 : P { des := ⟨[], []⟩, newSvc := [], newEps := [], nextId := s.nextId, fresh := [], calls := [], fwrites := [] }) :
+    P (buildDesired s st hint) := by
+  unfold buildDesired
+  exact foldl_pres (P := P) (fun b p => applyService s st hint b p.1 p.2)
+    (fun b p hb => hp.applyService hb s st hint p.1 p.2) st.svcs _ h0
+
+/-- every service of the state is recorded: one `updateService` call with its (filtered) endpoints and
+one frontend `Set` for `clusterIP:port` carrying that call's ID, the number of ready endpoints and the
+number of local ready endpoints. -/
+theorem service_recorded (s : Syncer) (st : KState) (hint : AMap SvcKey Nat) (sname : String) (svc : Svc)
+    (hm : (sname, svc) ∈ st.svcs) :
+    ∃ id v, (⟨sname, .prim⟩, id, epsFor s st sname svc) ∈ (buildDesired s st hint).calls ∧
+      (zeroKey svc, v) ∈ (buildDesired s st hint).fwrites ∧ v.id = id ∧
+      v.count = (readyOrdered (epsFor s st sname svc)).length ∧ v.lcl = localReady (epsFor s st sname svc) ∧
+      v.aff = affOf svc := by
+  unfold buildDesired
+  have key : ∀ (l : List (String × Svc)) (b0 : Bld), (sname, svc) ∈ l →
+      ∃ id v, (⟨sname, .prim⟩, id, epsFor s st sname svc) ∈ (l.foldl (fun b p => applyService s st hint b p.1 p.2) b0).calls ∧
+        (zeroKey svc, v) ∈ (l.foldl (fun b p => applyService s st hint b p.1 p.2) b0).fwrites ∧ v.id = id ∧
+        v.count = (readyOrdered (epsFor s st sname svc)).length ∧ v.lcl = localReady (epsFor s st sname svc) ∧
+        v.aff = affOf svc := by
+    intro l
+    induction l with
+    | nil => intro b0 h; simp at h
+    | cons p rest ih =>
+      intro b0 hm'
+      simp only [List.foldl_cons]
+      rcases List.mem_cons.1 hm' with h | h
+      · subst h
+        obtain ⟨id, v, h1, h2, h3⟩ := applySvc_records s.prevSvc hint b0 ⟨sname, .prim⟩ svc (epsFor s st sname svc)
+        refine ⟨id, v, ?_⟩
+        have hp := mem_pres (⟨sname, .prim⟩, id, epsFor s st sname svc) (zeroKey svc, v)
+        have hstep : (⟨sname, .prim⟩, id, epsFor s st sname svc) ∈ (applyService s st hint b0 sname svc).calls ∧
+            (zeroKey svc, v) ∈ (applyService s st hint b0 sname svc).fwrites := by
+          unfold applyService
+          exact hp.applyRest ⟨h1, h2⟩ _ _ _ _ _
+        have := foldl_pres (P := fun b => (⟨sname, .prim⟩, id, epsFor s st sname svc) ∈ b.calls ∧ (zeroKey svc, v) ∈ b.fwrites)
+          (fun b p => applyService s st hint b p.1 p.2) (fun b p hb => hp.applyService hb s st hint p.1 p.2) rest _ hstep
+        exact ⟨this.1, this.2, h3⟩
+      · exact ih _ h
+  exact key st.svcs _ hm
+
+/-- **Exactness of the cluster-IP frontend**: in the desired maps of a sync, the service's
+`clusterIP:port` frontend carries the number of its ready endpoints and of its local ready endpoints, and
+its backend `i` is the `i`-th ready endpoint in the order local first (`readyOrdered`,
+`mem_readyOrdered`, `readyOrdered_local_first`). -/
+theorem cluster_ip_frontend_exact (s : Syncer) (st : KState) (hint : AMap SvcKey Nat) (sname : String) (svc : Svc)
+    (hm : (sname, svc) ∈ st.svcs)
+    (hF : ((buildDesired s st hint).fwrites.map (·.1)).Nodup)
+    (hI : ((buildDesired s st hint).calls.map (·.2.1)).Nodup) :
+    ∃ v, (buildDesired s st hint).des.F.get (zeroKey svc) = some v ∧
+      v.count = (readyOrdered (epsFor s st sname svc)).length ∧ v.lcl = localReady (epsFor s st sname svc) ∧
+      v.aff = affOf svc ∧
+      ∀ i (hi : i < (readyOrdered (epsFor s st sname svc)).length),
+        (buildDesired s st hint).des.B.get ⟨v.id, i⟩ =
+          some ⟨(readyOrdered (epsFor s st sname svc))[i].ip, (readyOrdered (epsFor s st sname svc))[i].port⟩ := by
+  obtain ⟨id, v, hc, hw, hid, hcnt, hl, ha⟩ := service_recorded s st hint sname svc hm
+  have hf : FOK (buildDesired s st hint) := buildDesired_pres FOK_pres s st hint (fun _ kv h => by simp at h)
+  have hb : BOK (buildDesired s st hint) := buildDesired_pres BOK_pres s st hint (fun _ c h => by simp at h)
+  refine ⟨v, hf hF _ hw, hcnt, hl, ha, ?_⟩
+  intro i hi
+  rw [hid]
+  exact hb hI _ hc i hi
+
+/-- … and therefore in the kernel maps once the sync completed. -/
+theorem synced_cluster_ip_frontend_exact (s : Syncer) (st : KState) (hint : AMap SvcKey Nat) (fp : Nat)
+    (hok : (s.apply st hint fp).ok = true) (sname : String) (svc : Svc) (hm : (sname, svc) ∈ st.svcs)
+    (hF : ((buildDesired (prepared s st) st hint).fwrites.map (·.1)).Nodup)
+    (hI : ((buildDesired (prepared s st) st hint).calls.map (·.2.1)).Nodup) :
+    ∃ v, (s.apply st hint fp).syncer.dp.F.get (zeroKey svc) = some v ∧
+      v.count = (readyOrdered (epsFor (prepared s st) st sname svc)).length ∧
+      v.lcl = localReady (epsFor (prepared s st) st sname svc) ∧
+      ∀ i (hi : i < (readyOrdered (epsFor (prepared s st) st sname svc)).length),
+        (s.apply st hint fp).syncer.dp.B.get ⟨v.id, i⟩ =
+          some ⟨(readyOrdered (epsFor (prepared s st) st sname svc))[i].ip,
+                (readyOrdered (epsFor (prepared s st) st sname svc))[i].port⟩ := by
+  obtain ⟨v, h1, h2, h3, _, h5⟩ := cluster_ip_frontend_exact (prepared s st) st hint sname svc hm hF hI
+  obtain ⟨eF, eB⟩ := apply_final_exact s st hint fp hok
+  exact ⟨v, by rw [eF]; exact h1, h2, h3, fun i hi => by rw [eB]; exact h5 i hi⟩
+
 /-! ### Non-vacuity -/
 
 /-- a non-trivial consistent state: one frontend with two backends, one black-hole frontend. -/
@@ -226,6 +314,13 @@ example : (exSyncer.apply exState2 [] 0).phases.map List.length = [1, 1, 2, 2] :
 
 example : readyOrdered [exEp 100 false true, exEp 101 true true, exEp 102 false false] =
     [exEp 101 true true, exEp 100 false true] := by decide
+
+/-- the no-duplicates hypotheses of `cluster_ip_frontend_exact` hold for the example sync
+(one service with a node port and an external IP: three frontend keys, one ID). -/
+example : ((buildDesired (Syncer.new [7] [] ⟨[], []⟩) (exState [exEp 100 false true, exEp 101 true true]) []).fwrites.map (·.1)).Nodup ∧
+    ((buildDesired (Syncer.new [7] [] ⟨[], []⟩) (exState [exEp 100 false true, exEp 101 true true]) []).calls.map (·.2.1)).Nodup ∧
+    (buildDesired (Syncer.new [7] [] ⟨[], []⟩) (exState [exEp 100 false true, exEp 101 true true]) []).fwrites.length = 3 := by
+  decide +kernel
 
 /-- a reachable mid-update state (one write of phase 1 done). -/
 example : ∃ σ, Reach ⟨[], []⟩ exDP σ ∧ σ.dp.F.length = 1 :=
